@@ -650,6 +650,11 @@ def search(ctx, broken, seeds):
                  ("uri", "otpauth://totp/iss:?secret=AAAAAAAAAAAAAAAA"),
                  ("dict", dict(d0, type="motp")), ("dict", {k: v for k, v in d0.items() if k != "type"}), ("dict", {k: v for k, v in d0.items() if k != "v"}), ("dict", dict(d0, v=0)),
                  ("dict", dict(d0, v=2)), ("dict", {k: v for k, v in d0.items() if k != "key"})]
+        # the otp type names exactly one kind: every other text in that place — blank, a fragment or an extension of the name, another case —
+        # is refused, in the URI's authority and in the dictionary's `type`
+        for ty in ("", "t", "o", "p", "to", "ot", "tp", "tot", "otp", "TOTP", "Totp", "totp2", "xtotp", "totp ", " totp", "totp\n"):
+            cases.append(("uri", u0.replace("//totp/", "//" + ty.replace(" ", "%20").replace("\n", "%0A") + "/")))
+            cases.append(("dict", dict(d0, type=ty)))
         for kind, src in cases:
             for cls in (TOTP, TOTP.using(digits=8, issuer="iss")):
                 try:
